@@ -86,7 +86,12 @@ def names_used(rules, acc):
 def print_case(case):
     data_spec, cfg, seed = case
     from gemclus.tree import Kauri, print_kauri_tree
+    offset = False
+    if data_spec[0] == "offset":
+        offset, data_spec = True, data_spec[1]
     X = make_data(data_spec, seed)
+    if offset:
+        X = X * 0.37 - 0.37          # negative, zero and fractional thresholds
     n, d = X.shape
     p = {a: AXES[a][i] for a, i in cfg.items()}
     mss, msl = p["split_leaf"]
@@ -205,6 +210,7 @@ def explorers(tier, seed):
         ms = list(row_multisets(n, 2))
         datas += ms if (thorough or n < 4) else ms[::4]
     datas += [("generic", n, d) for n in (5, 6, 7) for d in (1, 2, 3)]
+    datas += [("offset", sp) for sp in list(row_multisets(4, 1)) + list(row_multisets(3, 2))[::3]]
     cfgs = configs(2 if thorough else 1)
     cases = [(spec, c, seed) for spec in datas for c in cfgs]
     return [
